@@ -1652,8 +1652,14 @@ def run(idx, rep, tier):
         _fa = k.func(_q)
         for _n, _c in k.calls_named(_fa, 'sign', 'self._agent'):
             _na += 1
-            rep.check(bool(_c.args) and dotted(_c.args[0]) ==
-                      'self.key_public_data', 'C05.R27',
+            _src = set()
+            if _c.args:
+                _src = {dotted(_c.args[0])}
+                _lv, _fr = expr_sources(k.cfg(_fa), k.rd(_fa), _n.id,
+                                        _c.args[0])
+                _src |= {dotted(x) for x in _lv} | set(_fr)
+            rep.check(bool(_c.args) and 'self.key_public_data' in _src and
+                      'self.public_data' not in _src, 'C05.R27',
                       key(_fa, 'agent asked for the key it holds'),
                       'self._agent.sign(self.key_public_data, ...)',
                       f'`{norm(_c)[:70]}`: with client_keys=[(agent_key, '
